@@ -22,6 +22,9 @@
         -> stripComments_is_reference (+ stripComments_keeps_every_line_break,
                                          stripComments_identity_without_slash); the text of a String is
            what precedes its first 0 byte (cstr), as for the code which reads the String as a C string
+        -> stripComments_follows_comment_grammar (the same said as a grammar: a text cut into plain bytes,
+           string literals, line comments up to the line break, block comments - JsonSpec.strips - is
+           stripped piece by piece; soundness only: that every text has such a cut is not proved)
         -> stripComments_memory_safe, stripComments_never_longer (the raw `*(dest++)` writes into
            `String result(data.length())` and the reads src[1] / end[1] stay inside their buffers)
 
@@ -179,6 +182,10 @@ Theorem stripComments_identity_without_slash :
 Proof. exact strip_no_slash_identity. Qed.
 Print Assumptions stripComments_identity_without_slash.
 
+Theorem stripComments_follows_comment_grammar : forall s o : list Z, strips (cstr s) o -> strip_comments s = o.
+Proof. exact strip_comments_follows_grammar. Qed.
+Print Assumptions stripComments_follows_comment_grammar.
+
 Theorem stripComments_memory_safe : forall s : list Z, strip_comments_chk s = Ok (strip_comments s).
 Proof. exact strip_comments_chk_ok. Qed.
 Print Assumptions stripComments_memory_safe.
@@ -259,3 +266,16 @@ Example ex_parse_twice :
   run_parses (mkParser 77 None) [(JNull, [10;10;91;49;32;50]); (JList [JInt 0], [120]); (JMap [([97], JNull)], [123;125])]
   = [PErr 3 5 E_comma; PErr 1 1 E_char; POk (JMap [])].
 Proof. vm_compute. reflexivity. Qed.
+
+(* a, a block comment x, a literal holding two slashes, a line comment c, LF, d  -  cut by the grammar *)
+Example ex_strips :
+  strips [97; 47;42;120;42;47; 34;47;47;34; 47;47;99; 10; 100] [97; 34;47;47;34; 10; 100].
+Proof.
+  apply st_plain; [discriminate|discriminate|].
+  apply (st_block [120] (34 :: 47 :: 47 :: 34 :: 47 :: 47 :: 99 :: 10 :: [100]) (34 :: 47 :: 47 :: 34 :: 10 :: [100]) eq_refl).
+  apply (st_string [47; 47] (47 :: 47 :: 99 :: 10 :: [100]) (10 :: [100])).
+  { apply lb_plain; [discriminate|discriminate|]. apply lb_plain; [discriminate|discriminate|]. apply lb_nil. }
+  apply (st_line [99] (10 :: [100]) (10 :: [100]) eq_refl (or_intror eq_refl)).
+  apply st_plain; [discriminate|discriminate|].
+  apply st_plain; [discriminate|discriminate|]. apply st_nil.
+Qed.
